@@ -59,7 +59,7 @@ SPECS = [
          note="cut: the two statements that put the header in front of the response data"),
     Spec(GROUP, "ho_send_octets", HC, "HandoverClient.send_octets", [("octets", BYTES), ("miu", INT)],
          opaque={"self.socket.send": ("send", [BYTES], BOOL, False)}, stmts=(2, 4),
-         note="cut: the fragment loop and the return value; `miu` is `self.socket.getsockopt(SO_SNDMIU)`, "
+         note="cut: the fragment loop and the return value; `miu` is `self.socket.getsockopt(SO_SNDMIU)` (>= 1), "
               "`self.socket.send` the oracle parameter `send`"),
     # ---- conditions, slices and protocol constants that sit between the socket calls (`expr=` cuts, pinned to the statement of the source they sit in by `path=`/`stmts=`)
     Spec(GROUP, "snep_srv_empty", SS, "SnepServer._serve", [("data", BYTES)], path=[(3, "body"), (0, "body")], stmts=[1], expr="not data",
@@ -135,6 +135,14 @@ BRIDGE = {
 
 def _msg(rng, n):
     return bytes(rng.randrange(256) for _ in range(n))
+
+
+def accept(sp, pv, bv):
+    """precondition of the fragment loops: a send MIU >= 1 (LLCP guarantees >= 128); with `miu <= 0` the real
+    `send_octets` loop does not terminate when the socket accepts the empty fragment"""
+    if sp.lean == "ho_send_octets":
+        return pv[1] >= 1
+    return True
 
 
 def inputs(rng, sp):
